@@ -34,7 +34,7 @@ MANIFEST = dict(
     technique="Coq proof + generated assertion programs through the real interpreter",
 )
 
-THEOREMS = ["C21_assert", "C21_eq2", "C21_eq2_other", "C21_eq2_exact", "C21_eq3_exact", "C21_eq3_struct", "C21_abort"]
+THEOREMS = ["C21_assert", "C21_eq2", "C21_eq2_other", "C21_eq2_list_length", "C21_eq2_exact", "C21_eq3_exact", "C21_eq3_struct", "C21_abort"]
 
 
 def lit(v):
@@ -54,7 +54,7 @@ class Q:
 
 def run(chk):
     binary, tbl = qtylib.session()
-    proved = chk.prove("Props.C21", THEOREMS, ["theories/Props/C21.vo", "theories/Qty/Prelude.vo"],
+    proved = chk.prove("Props.C21", THEOREMS, ["theories/Props/C21.vo", "theories/Qty/Prelude.vo", "theories/Qty/DisplayExec.vo", "theories/Qty/PreludeF.vo"],
                        extra_obligations=["Qty.Prelude.prelude_wf", "Qty.Prelude.prelude_exact_int",
                                           "Qty.Prelude.prelude_exact_pos"])
     chk.trusted += [
@@ -74,7 +74,7 @@ def run(chk):
 
     def gen_assert():
         """returns (source, coq stmt or None, expected success: True/False, kind, judged_by)"""
-        k = rng.choice(["assert", "eq2-far", "eq2-same", "eq2-tie", "eq3", "eq3", "eq3-boundary", "other", "nan", "list"])
+        k = rng.choice(["assert", "eq2-far", "eq2-same", "eq2-tie", "eq3", "eq3", "eq3-boundary", "other", "nan", "list", "list", "list"])
         g = rng.choice(groups)
         if k == "assert":
             if rng.random() < 0.4:
@@ -142,12 +142,83 @@ def run(chk):
             if form == "eq3a":
                 return "assert_eq(NaN * %s, 1 * %s, 1 * %s)" % (s, s, s), None, False, "eq3-nan", "oracle"
             return "assert_eq(1 * %s, 1 * %s, NaN * %s)" % (s, s, s), None, False, "eq3-nan", "oracle"
-        # lists
+        # lists / nested lists / struct values / strings with prefix relations (the non-quantity branch)
         u = unit_in(g)
-        s = qtylib.spell_unit(tbl, u)
-        same = rng.random() < 0.5
-        return ("assert_eq([1 * %s, 2 * %s], [1 * %s, %s * %s])" % (s, s, s, "2" if same else "3", s), None, same,
-                "eq2-list", "oracle")
+        su = qtylib.spell_unit(tbl, u)
+        form = rng.choice(["scalars", "quantities", "strings", "nested", "struct", "shared", "strprefix"])
+
+        def q_lit(v, scalar):
+            if scalar:
+                return "%d" % v, "(VQ (QL (Qm %d 1) []))" % v
+            return "(%d * %s)" % (v, su), "(VQ %s)" % tbl.coq_q(qtylib.f2bits(float(v)), u)
+
+        def s_lit(v, _):
+            return '"s%d"' % v, '(VS "s%d")' % v
+
+        if form == "strprefix":
+            x = rng.choice(["", "a", "ab", "abc"])
+            y = rng.choice([x, x + "c", x[:-1] if x else "b"])
+            return ('assert_eq("%s", "%s")' % (x, y), 'SAssertEq2 (VS "%s") (VS "%s")' % (x, y), x == y, "eq2-other", "exact")
+        if form == "struct":
+            a, b2 = rng.randint(1, 3), rng.randint(1, 3)
+            c, d = rng.randint(1, 2), rng.randint(1, 2)
+            src = "assert_eq(P { x: %d, y: %d }, P { x: %d, y: %d })" % (a, c, b2, d)
+            m = 'SAssertEq2 (VL [VS "P"; VQ (QL (Qm %d 1) []); VQ (QL (Qm %d 1) [])]) (VL [VS "P"; VQ (QL (Qm %d 1) []); VQ (QL (Qm %d 1) [])])' % (a, c, b2, d)
+            return src, m, (a == b2 and c == d), "eq2-struct", "exact"
+        if form == "shared":
+            # two views of the same storage: tail / cons of one variable
+            n = rng.randint(1, 4)
+            vals = [rng.choice([7, 7, 8]) for _ in range(n)]
+            op = rng.choice(["tail", "cons", "same", "cons_end"])
+            xs = "[" + ", ".join(str(v) for v in vals) + "]"
+            lhs = {"tail": "tail(xs)", "cons": "cons(%d, xs)" % vals[0], "same": "xs", "cons_end": "cons_end(%d, tail(xs))" % vals[-1]}[op]
+            lv = {"tail": vals[1:], "cons": [vals[0]] + vals, "same": vals, "cons_end": vals[1:] + [vals[-1]]}[op]
+            if rng.random() < 0.5:
+                src, l, r = "assert_eq(%s, xs)" % lhs, lv, vals
+            else:
+                src, l, r = "assert_eq(xs, %s)" % lhs, vals, lv
+            ml = lambda vs: "(VL [%s])" % "; ".join("VQ (QL (Qm %d 1) [])" % v for v in vs)
+            return "let xs = %s␤%s" % (xs, src), "SAssertEq2 %s %s" % (ml(l), ml(r)), l == r, "eq2-list-shared", "exact"
+        if form == "nested":
+            def mk(vss):
+                return ("[" + ", ".join("[" + ", ".join(str(v) for v in vs) + "]" for vs in vss) + "]",
+                        "(VL [%s])" % "; ".join("(VL [%s])" % "; ".join("VQ (QL (Qm %d 1) [])" % v for v in vs) for vs in vss))
+            a = [[rng.randint(1, 2) for _ in range(rng.randint(1, 2))] for _ in range(rng.randint(1, 3))]
+            rel = rng.choice(["equal", "inner-prefix", "outer-prefix", "differ"])
+            b2 = [list(x) for x in a]
+            if rel == "inner-prefix":
+                b2[-1] = b2[-1] + [1]
+            elif rel == "outer-prefix":
+                b2 = b2 + [[1]]
+            elif rel == "differ":
+                b2[0] = [9] + b2[0][1:]
+            if rng.random() < 0.5:
+                a, b2 = b2, a
+            (sa, ma), (sb, mb) = mk(a), mk(b2)
+            return "assert_eq(%s, %s)" % (sa, sb), "SAssertEq2 %s %s" % (ma, mb), a == b2, "eq2-list-nested", "exact"
+        lit = {"scalars": lambda v: q_lit(v, True), "quantities": lambda v: q_lit(v, False), "strings": lambda v: s_lit(v, None)}[form]
+        a = [rng.randint(1, 3) for _ in range(rng.randint(0, 3))]
+        rel = rng.choice(["equal", "prefix", "suffix", "differ", "empty"])
+        if rel == "equal":
+            b2 = list(a)
+        elif rel == "prefix":
+            b2 = a + [rng.randint(1, 3)]
+        elif rel == "suffix":
+            b2 = [rng.randint(1, 3)] + a
+        elif rel == "empty":
+            b2, a = [], (a or [1])
+        else:
+            a = a or [2]
+            b2 = list(a)
+            b2[rng.randrange(len(b2))] += 5
+        if rng.random() < 0.5:
+            a, b2 = b2, a
+        if not a and not b2:
+            a, b2 = [1], [1]
+        la, lb = [lit(v) for v in a], [lit(v) for v in b2]
+        src = "assert_eq([%s], [%s])" % (", ".join(x[0] for x in la), ", ".join(x[0] for x in lb))
+        m = "SAssertEq2 (VL [%s]) (VL [%s])" % ("; ".join(x[1] for x in la), "; ".join(x[1] for x in lb))
+        return src, m, a == b2, "eq2-list", "exact"
 
     progs = []
     for c in json.load(open(os.path.join(common.VERIF, "corpus", "c21.json"))):
@@ -175,8 +246,7 @@ def run(chk):
             if ok is None:
                 judgeable = False
             if alive and ok is False:
-                outcome = {"assert": "E:assert", "eq2": "E:assert_eq2", "eq2-other": "E:assert_eq2", "eq2-nan": "E:assert_eq2",
-                           "eq2-list": "E:assert_eq2", "eq3": "E:assert_eq3", "eq3-nan": "E:assert_eq3"}[kind]
+                outcome = "E:assert" if kind == "assert" else ("E:assert_eq3" if kind.startswith("eq3") else "E:assert_eq2")
                 alive = False
             if alive and ok is None:
                 alive = None        # unknown from here on
@@ -185,6 +255,8 @@ def run(chk):
         model.append("SPrint %d" % marker)
         if alive:
             prints.append(str(marker))
+        if any(k == "eq2-struct" for k in kinds):
+            stmts.insert(0, "struct P { x: Scalar, y: Scalar }")
         progs.append(dict(kind="generated", src="␤".join(stmts), model="[%s]" % "; ".join(model) if modelable else None,
                           expect=(outcome + "|" + ",".join(prints)) if judgeable else None, judged=judged, kinds=kinds))
 
